@@ -144,7 +144,20 @@ func init() {
 		fmt.Sscan(in[3], &ln)
 		runRDL(c, parseCfg(in[0]), parseFrames(in[1]), parseFrames(in[2])[0], ln, unhx(in[4]), in[5], in[6])
 	}
+	rdlLimits := func(c *ctx) {
+		// ordinary lengths just over the limit, header check on and off
+		for _, side := range []byte{1, 2} {
+			for _, n := range []int{1, 126, 300, 70000, 1 << 20} {
+				for _, skip := range []bool{false, true} {
+					h := c.mkFrame(side, true, 2, 0)
+					runRDL(c, rcfg{state: side, cb: 1, max: int64(n - 1), skip: skip}, c.concrete(side, []aframe{{1, true, 2}}), h, int64(n), c.payload(7), "-", "4096")
+				}
+			}
+		}
+	}
+	wrap("C15", rdlLimits)
 	wrap("C05", func(c *ctx) {
+		rdlLimits(c)
 		lens := []int64{1 << 32, 1<<32 + 5, 1<<40 + 100, 1<<62 + 7, 1<<63 - 1, 1<<32 - 1, 1 << 31, 70000, 1 << 16, 1<<33 + 65536}
 		i := 0
 		for _, side := range []byte{1, 2} {
@@ -162,6 +175,10 @@ func init() {
 						}
 						h := c.mkFrame(side, i%3 != 0, op, 0)
 						runRDL(c, rcfg{state: side, cb: 1, max: max}, fs, h, ln, c.payload(7), chunkSpecs[i%len(chunkSpecs)], bufSpecs[i%len(bufSpecs)])
+						if i%3 == 0 {
+							// the size limit is independent of the header check
+							runRDL(c, rcfg{state: side, cb: 1, max: max, skip: true}, fs, h, ln, c.payload(7), chunkSpecs[(i+1)%len(chunkSpecs)], bufSpecs[(i+1)%len(bufSpecs)])
+						}
 					}
 				}
 			}
@@ -184,9 +201,99 @@ func init() {
 			}
 		}
 	})
-	// C07: a validating reader reused through Reset judges the new stream on its own
-	wrap("C07", func(c *ctx) { u8rsPending(c) })
+	// C13: the header handed to the application: RSV1 cleared on the first frame of a data message, RSV2/RSV3 and
+	// everything else untouched; directly (MessageState.UnsetBits) and through Reader.NextFrame
+	replayers["C13U"] = func(c *ctx, in []string) {
+		var op, rsv, fin, prev int
+		fmt.Sscan(in[0], &op)
+		fmt.Sscan(in[1], &rsv)
+		fmt.Sscan(in[2], &fin)
+		fmt.Sscan(in[3], &prev)
+		c13U(c, byte(op), byte(rsv), fin != 0, prev != 0)
+	}
+	wrap("C13", func(c *ctx) {
+		for _, op := range []byte{1, 2, 0, 8, 9, 10} {
+			for rsv := 0; rsv < 8; rsv++ {
+				for fin := 0; fin < 2; fin++ {
+					for prev := 0; prev < 2; prev++ {
+						c13U(c, op, byte(rsv), fin != 0, prev != 0)
+					}
+				}
+			}
+		}
+	})
+	// C20: wss:// with the library's own TLS wrapping and a peer that stays silent during the TLS handshake
+	replayers["C20T"] = func(c *ctx, in []string) { c20T(c, in[0]) }
+	replayers["C20S"] = func(c *ctx, in []string) { c20S(c) }
+	wrap("C20", func(c *ctx) {
+		for _, m := range []string{"ctxdl", "cancel", "tmo", "tmoctx"} {
+			c20T(c, m)
+		}
+		c20S(c)
+	})
+	// C19: a pooled Writer handed to another session carries nothing of the previous one
+	replayers["C19R"] = func(c *ctx, in []string) {
+		var n int
+		fmt.Sscan(in[0], &n)
+		c19R(c, n)
+	}
+	replayers["C19J"] = func(c *ctx, in []string) {
+		var n int
+		fmt.Sscan(in[0], &n)
+		c19Reexec()
+		c19J(c, n)
+	}
+	wrap("C19", func(c *ctx) {
+		for _, n := range []int{128, 4096, 65536} {
+			c19R(c, n)
+		}
+		c19J(c, 16)
+	})
+	// C10: Dialer.Host overrides the Host HEADER, not where the connection goes
+	wrap("C10", func(c *ctx) {
+		for _, u := range []string{"ws://10.0.0.7:8080/chat", "wss://a.example/x", "ws://[::1]/", "ws://b.example:/", "wss://[2001:db8::1]:8443/"} {
+			for _, h := range []string{"chat.example.org", "override.example:8080", "[::2]:99"} {
+				dd10h(c, u, h)
+			}
+		}
+	})
+	// C07: a validating reader reused through Reset judges the new stream on its own; a consumer that reads a
+	// text frame with io.ReadFull into a buffer of exactly the announced length still learns that it is invalid
+	replayers["RDF"] = func(c *ctx, in []string) {
+		var side int
+		fmt.Sscan(in[0], &side)
+		rdf(c, byte(side), unhx(in[1]), in[2])
+	}
+	wrap("C07", func(c *ctx) {
+		u8rsPending(c)
+		texts := []string{"ok", "caf\xc3\xa9", "caf\xc3", "ab\xe2\x82", "\xe2\x82\xac", "\xf0\x9f\x98", "x\xff", "\xc0\xaf", "price: 5\xe2\x82\xac", "\xed\xa0\x80", ""}
+		for i, t := range texts {
+			for _, side := range []byte{1, 2} {
+				rdf(c, side, []byte(t), chunkSpecs[(i+int(side))%len(chunkSpecs)])
+			}
+		}
+	})
+	replayers["RDZ"] = func(c *ctx, in []string) {
+		runRD(c, "RDZ", parseCfg(in[0]), parseFrames(in[1]), in[2], in[3], in[4], in[5])
+	}
 	wrap("C04", func(c *ctx) {
+		// an OnIntermediate handler that does not read the control payload
+		nz := 40
+		if c.thor {
+			nz = 600
+		}
+		for i := 0; i < nz; i++ {
+			side := byte(1 + i%2)
+			fs := c.randValidStream(side, 2+c.rng.Intn(7), 150)
+			w := wireOf(fs)
+			runRD(c, "RDZ", rcfg{state: side, cb: 2, chk: i%3 == 0}, fs, "-", c.randChunkSpec(len(w)), "eof", bufSpecs[i%len(bufSpecs)])
+		}
+		for _, side := range []byte{1, 2} {
+			for n := 0; n <= 125; n += 1 + n/4 {
+				fs := []sframe{c.mkFrame(side, false, 2, 3), c.mkFrame(side, true, 9, n), c.mkFrame(side, false, 0, 2), c.mkFrame(side, true, 10, 125-n), c.mkFrame(side, true, 0, 1), c.mkFrame(side, true, 2, 4)}
+				runRD(c, "RDZ", rcfg{state: side, cb: 2}, fs, "-", chunkSpecs[n%len(chunkSpecs)], "eof", bufSpecs[n%len(bufSpecs)])
+			}
+		}
 		n := 12
 		if c.thor {
 			n = 200
@@ -270,6 +377,17 @@ func init() {
 				}
 				// the second write finds the buffer part-filled: it is topped up and flushed completely full
 				runWH(c, "WH", wcfg{ctor, side, 1, "-"}, fmt.Sprintf("w%d/2,w%d/3,fl", n*2/3, n*2/3), "-")
+			}
+		}
+		// automatic flushing disabled and ONE write around / beyond 65535 bytes: still nothing before the final
+		// flush, then the whole message as one frame
+		for i, ctor := range []string{"s125", "d0", "s65535", "u200"} {
+			side := byte(1 + i%2)
+			runWH(c, "WH", wcfg{ctor, side, 2, "-"}, "df,w65535/1,fl", "-")
+			runWH(c, "WH", wcfg{ctor, side, 1, "-"}, "df,w65536/2,fl", "-")
+			if c.thor || i == 0 {
+				runWH(c, "WH", wcfg{ctor, side, 2, "-"}, "df,w70000/3,w5/1,fl", "-")
+				runWH(c, "WH", wcfg{ctor, 3 - side, 2, "-"}, "df,w3/1,w66000/3,fl", "-")
 			}
 		}
 		var ops []string
@@ -416,7 +534,7 @@ func init() {
 	})
 	// C14: one negotiator reused with a DIFFERENT configuration after Reset behaves as a new one
 	replayers["C14R"] = func(c *ctx, in []string) { c14R(c, in[0], in[1], in[2], in[3]) }
-	wrap("C14", func(c *ctx) {
+	c14Resets := func(c *ctx) {
 		cfgs := []string{"0.0.0.0", "1.1.0.0", "0.0.8.0", "1.0.10.12", "0.1.15.15", "1.1.12.8", "0.0.0.9"}
 		offers := []string{"permessage-deflate", "permessage-deflate; server_max_window_bits=9", "permessage-deflate; client_max_window_bits",
 			"permessage-deflate; server_no_context_takeover; client_max_window_bits=12", "permessage-deflate; server_max_window_bits=15; client_no_context_takeover", "foo"}
@@ -424,8 +542,13 @@ func init() {
 			for j, b := range cfgs {
 				c14R(c, a, offers[(i+j)%len(offers)], b, offers[(i*3+j)%len(offers)])
 			}
+			// the accepted offer before the Reset is the BARE one (it parses to no parameters at all)
+			c14R(c, a, "permessage-deflate", a, offers[i%len(offers)])
+			c14R(c, a, "permessage-deflate", cfgs[(i+1)%len(cfgs)], "permessage-deflate")
 		}
-	})
+	}
+	wrap("C14", c14Resets)
+	wrap("C18", c14Resets)
 }
 
 const hsRequest = "GET /chat HTTP/1.1\r\nHost: example.com\r\nUpgrade: websocket\r\nConnection: Upgrade\r\nSec-WebSocket-Key: dGhlIHNhbXBsZSBub25jZQ==\r\nSec-WebSocket-Version: 13\r\nSec-WebSocket-Protocol: chat\r\n\r\n"
@@ -725,9 +848,11 @@ func c14R(c *ctx, cfgA, offerA, cfgB, offerB string) {
 	c14Neg(&e, offerA)
 	e.Reset()
 	e.Parameters = c14Params(cfgB)
-	ra := strings.ReplaceAll(c14Neg(&e, offerB), " ", "_")
+	_, acc0 := e.Accepted() // right after the Reset, before any offer
+	ra := fmt.Sprintf("%v!", acc0) + strings.ReplaceAll(c14Neg(&e, offerB), " ", "_")
 	f := wsflate.Extension{Parameters: c14Params(cfgB)}
-	rb := strings.ReplaceAll(c14Neg(&f, offerB), " ", "_")
+	_, accF := f.Accepted()
+	rb := fmt.Sprintf("%v!", accF) + strings.ReplaceAll(c14Neg(&f, offerB), " ", "_")
 	c.emit("C14R %s %s %s %s -> %s %s", cfgA, strings.ReplaceAll(offerA, " ", "_"), cfgB, strings.ReplaceAll(offerB, " ", "_"), ra, rb)
 }
 
@@ -993,11 +1118,9 @@ func w18x(c *ctx, side byte, how string, n int) {
 	}
 	d0 := newRecWriter()
 	var a *wsutil.Writer
-	if how == "pool" {
-		a = wsutil.GetWriter(d0, ws.State(side), ws.OpText, 128)
-	} else {
-		a = wsutil.NewWriterSize(d0, ws.State(side), ws.OpText, 128)
-	}
+	// a writer with a 128-byte payload buffer: PutWriter really keeps it (size class 128) and GetWriter(128)
+	// hands the same object back
+	a = wsutil.NewWriterSize(d0, ws.State(side), ws.OpText, 128)
 	a.SetExtensions(xs...)
 	a.Write([]byte("first"))
 	a.Flush()
@@ -1114,4 +1237,276 @@ func c19G(c *ctx) {
 	srv := reply(ws.StateServerSide, ws.OpPing, nil)
 	cli := reply(ws.StateClientSide, ws.OpPing, nil)
 	c.emit("C19G %s -> %d %s %s %d", b2s(raceEnabled), b2i(snap() == before), hx(srv), hx(cli), c19Races()-races0)
+}
+
+func c13U(c *ctx, op, rsv byte, fin, prev bool) {
+	h := ws.Header{Fin: fin, Rsv: rsv, OpCode: ws.OpCode(op), Length: 1}
+	var ms wsflate.MessageState
+	ms.SetCompressed(prev)
+	g, err := ms.UnsetBits(h)
+	direct := fmt.Sprintf("%d.%d.%d.%d.%d.%s.%d", b2i(g.Fin), g.Rsv, g.OpCode, b2i(g.Masked), g.Length, map[bool]string{true: "nil", false: "err"}[err == nil], b2i(ms.IsCompressed()))
+	// through the Reader (client side: unmasked frame from the server; extended state so that RSV bits pass the header check)
+	via := "-"
+	if (op == 0) == prev || op >= 8 { // a continuation needs an open message; skip shapes the Reader refuses for other reasons
+		var ms2 wsflate.MessageState
+		var pre []byte
+		if op == 0 {
+			// open a message first (its first frame decides the state the continuation meets)
+			f0 := ws.NewFrame(ws.OpText, false, []byte("a"))
+			if prev {
+				f0.Header.Rsv = 4
+			}
+			var b bytes.Buffer
+			ws.WriteFrame(&b, f0)
+			pre = b.Bytes()
+		}
+		var b bytes.Buffer
+		b.Write(pre)
+		if op >= 8 && !fin {
+			via = "-"
+		} else {
+			ws.WriteFrame(&b, ws.Frame{Header: h, Payload: []byte("x")})
+			rd := &wsutil.Reader{Source: bytes.NewReader(b.Bytes()), State: ws.StateClientSide | ws.StateExtended, Extensions: []wsutil.RecvExtension{&ms2}}
+			var hh ws.Header
+			var e error
+			if op == 0 {
+				if _, e = rd.NextFrame(); e == nil {
+					_, e = io.ReadFull(rd, make([]byte, 1))
+					if e == nil {
+						hh, e = rd.NextFrame()
+					}
+				}
+			} else {
+				if op >= 8 || true {
+					ms2.SetCompressed(prev && op >= 8)
+				}
+				hh, e = rd.NextFrame()
+			}
+			via = fmt.Sprintf("%d.%d.%d.%s.%d", b2i(hh.Fin), hh.Rsv, hh.OpCode, map[bool]string{true: "nil", false: "err"}[e == nil], b2i(ms2.IsCompressed()))
+		}
+	}
+	c.emit("C13U %d %d %d %d -> %s %s", op, rsv, b2i(fin), b2i(prev), direct, via)
+}
+
+// C20T: Dial("wss://…") over a deadline-honouring pipe whose far end reads and never answers; the context ends
+// (deadline / cancel) or Dialer.Timeout elapses after 100 ms. Dial must return promptly, with the context's error
+// when a context ended, and the conn must be closed.
+func c20T(c *ctx, mode string) {
+	closed := make(chan struct{})
+	d := ws.Dialer{NetDial: func(ctx context.Context, network, addr string) (net.Conn, error) {
+		cl, sv := net.Pipe()
+		go func() {
+			io.Copy(ioutil.Discard, sv) // ends when the client side is closed
+			close(closed)
+		}()
+		return cl, nil
+	}}
+	ctx := context.Background()
+	var cancel context.CancelFunc = func() {}
+	switch mode {
+	case "ctxdl":
+		ctx, cancel = context.WithTimeout(ctx, 100*time.Millisecond)
+	case "cancel":
+		ctx, cancel = context.WithCancel(ctx)
+		go func() { time.Sleep(100 * time.Millisecond); cancel() }()
+	case "tmo":
+		d.Timeout = 100 * time.Millisecond
+	case "tmoctx":
+		d.Timeout = 100 * time.Millisecond
+		ctx, cancel = context.WithTimeout(ctx, time.Minute)
+	}
+	defer cancel()
+	type res struct{ err error }
+	done := make(chan res, 1)
+	t0 := time.Now()
+	go func() {
+		_, _, _, err := d.Dial(ctx, "wss://silent.example/")
+		done <- res{err}
+	}()
+	out, cls, isClosed := "returned", "-", 0
+	select {
+	case r := <-done:
+		switch {
+		case r.err == nil:
+			cls = "nil"
+		case r.err == context.DeadlineExceeded:
+			cls = "deadline"
+		case r.err == context.Canceled:
+			cls = "canceled"
+		default:
+			cls = "other"
+			if ne, ok := r.err.(net.Error); ok && ne.Timeout() {
+				cls = "timeout"
+			}
+		}
+		select {
+		case <-closed:
+			isClosed = 1
+		case <-time.After(time.Second):
+		}
+	case <-time.After(3 * time.Second):
+		out = "hang"
+	}
+	_ = t0
+	c.emit("C20T %s -> %s %s %d", mode, out, cls, isClosed)
+}
+
+// C19R: session A uses a poolable Writer (payload size a power of two) with an extension and flushing disabled,
+// puts it back; session B gets a Writer of that size class: B's frames are those of a fresh Writer
+func c19R(c *ctx, n int) {
+	dA := newRecWriter()
+	a := wsutil.NewWriterSize(dA, ws.StateServerSide|ws.StateExtended, ws.OpText, n)
+	ms := &wsflate.MessageState{}
+	ms.SetCompressed(true)
+	a.SetExtensions(ms)
+	a.Write([]byte("session A"))
+	a.Flush()
+	a.DisableFlush()
+	a.Write([]byte("left over"))
+	wsutil.PutWriter(a)
+	dB := newRecWriter()
+	b := wsutil.GetWriter(dB, ws.StateServerSide, ws.OpBinary, n)
+	same := b == a
+	b.Write([]byte("session B"))
+	b.Flush()
+	wsutil.PutWriter(b)
+	dF := newRecWriter()
+	f := wsutil.NewWriterSize(dF, ws.StateServerSide, ws.OpBinary, n)
+	f.Write([]byte("session B"))
+	f.Flush()
+	c.emit("C19R %d -> %d %s %s", n, b2i(same), hx(dB.all()), hx(dF.all()))
+}
+
+type dlConn struct {
+	net.Conn
+	mu    sync.Mutex
+	first time.Time
+}
+
+func (d *dlConn) SetDeadline(t time.Time) error {
+	d.mu.Lock()
+	if d.first.IsZero() && !t.IsZero() {
+		d.first = t
+	}
+	d.mu.Unlock()
+	return d.Conn.SetDeadline(t)
+}
+
+// C20S: background context, Dialer.Timeout = 400 ms, a connect phase that itself takes 300 ms, then a silent
+// peer: the deadline Dial arms on the conn is Timeout after the START of Dial ("returns once the configured dial
+// timeout elapses"), not Timeout after the connect.
+func c20S(c *ctx) {
+	var dc *dlConn
+	d := ws.Dialer{Timeout: 400 * time.Millisecond, NetDial: func(ctx context.Context, network, addr string) (net.Conn, error) {
+		time.Sleep(300 * time.Millisecond)
+		cl, sv := net.Pipe()
+		go io.Copy(ioutil.Discard, sv)
+		dc = &dlConn{Conn: cl}
+		return dc, nil
+	}}
+	t0 := time.Now()
+	done := make(chan error, 1)
+	go func() {
+		_, _, _, err := d.Dial(context.Background(), "ws://slow.example/")
+		done <- err
+	}()
+	out := "returned"
+	var err error
+	select {
+	case err = <-done:
+	case <-time.After(3 * time.Second):
+		out = "hang"
+	}
+	armed := int64(-1)
+	if dc != nil {
+		dc.mu.Lock()
+		if !dc.first.IsZero() {
+			armed = dc.first.Sub(t0).Milliseconds()
+		}
+		dc.mu.Unlock()
+	}
+	c.emit("C20S 400 300 -> %s %d %d", out, b2i(err != nil), armed)
+}
+
+// C19J: many server-side sessions REFUSED at the same time, with the built-in and with callback-chosen statuses
+// (405, 505, 426, 400, 401, 403, 404, 418): each gets the response it gets alone
+func c19J(c *ctx, n int) {
+	races0 := c19Races()
+	type job struct {
+		req    string
+		status int
+	}
+	mk := func(i int) job {
+		base := "Host: example.com\r\nUpgrade: websocket\r\nConnection: Upgrade\r\nSec-WebSocket-Key: dGhlIHNhbXBsZSBub25jZQ==\r\nSec-WebSocket-Version: 13\r\n\r\n"
+		switch i % 8 {
+		case 0:
+			return job{"POST /a HTTP/1.1\r\n" + base, 0}
+		case 1:
+			return job{"GET /a HTTP/1.0\r\n" + base, 0}
+		case 2:
+			return job{"GET /a HTTP/1.1\r\n" + strings.Replace(base, "Version: 13", "Version: 12", 1), 0}
+		case 3:
+			return job{"GET /a HTTP/1.1\r\n" + strings.Replace(base, "Upgrade: websocket\r\n", "", 1), 0}
+		}
+		return job{"GET /a HTTP/1.1\r\n" + base, []int{401, 403, 404, 418}[i%4]}
+	}
+	run := func(j job) string {
+		var out bytes.Buffer
+		u := ws.Upgrader{}
+		if j.status != 0 {
+			st := j.status
+			u.OnHeader = func(k, v []byte) error {
+				return ws.RejectConnectionError(ws.RejectionStatus(st), ws.RejectionReason(fmt.Sprintf("refused %d", st)))
+			}
+		}
+		_, err := u.Upgrade(struct {
+			io.Reader
+			io.Writer
+		}{strings.NewReader(j.req), &out})
+		return fmt.Sprintf("%v|%s", err != nil, out.String())
+	}
+	solo := make([]string, n)
+	for i := range solo {
+		solo[i] = "?"
+	}
+	conc := make([]string, n)
+	var wg sync.WaitGroup
+	for i := 0; i < n; i++ {
+		wg.Add(1)
+		go func(i int) { defer wg.Done(); conc[i] = run(mk(i)) }(i)
+	}
+	wg.Wait()
+	mism := 0
+	for i := 0; i < n; i++ {
+		solo[i] = run(mk(i))
+		if solo[i] != conc[i] {
+			mism++
+		}
+	}
+	c.emit("C19J %d %s -> %d %d", n, b2s(raceEnabled), mism, c19Races()-races0)
+}
+
+// RDF: one single-frame text message, CheckUTF8 on, read with io.ReadFull into exactly hdr.Length bytes, then
+// one more Read
+func rdf(c *ctx, side byte, text []byte, spec string) {
+	f := c.mkFrame(side, true, 1, 0)
+	f.payload = text
+	w := wireOf([]sframe{f, c.mkFrame(side, true, 2, 1)})
+	rd := &wsutil.Reader{Source: newChunkReader(w, spec, "eof"), State: ws.State(side), CheckUTF8: true}
+	n1, e1, n2, e2 := 0, "-", 0, "-"
+	var got []byte
+	hdr, err := rd.NextFrame()
+	if err != nil {
+		e1 = "next:" + readErrClass(err)
+	} else {
+		buf := make([]byte, hdr.Length)
+		var er error
+		n1, er = io.ReadFull(rd, buf)
+		got = buf[:n1]
+		e1 = readErrClass(er)
+		one := make([]byte, 8)
+		n2, er = rd.Read(one)
+		e2 = readErrClass(er)
+	}
+	c.emit("RDF %d %s %s -> %d %s %s %d %s", side, hx(text), spec, n1, e1, hx(got), n2, e2)
 }
